@@ -92,7 +92,8 @@ class SymBool:
         _leak("hash(SymBool)")
 
     def __repr__(self):
-        return "<SymBool %s>" % (self.t,)
+        x = self.t.sexpr()
+        return "<SymBool %s>" % (x if len(x) <= 120 else x[:117] + "...")
 
     __str__ = __repr__
 
@@ -284,7 +285,8 @@ class _SymNum:
 
     # -- formatting is harmless (messages only) --------------------------------------
     def __repr__(self):
-        return "<sym %s>" % (self.t,)
+        x = self.t.sexpr()  # C-side printer: cheap (the Python pretty-printer is not)
+        return "<sym %s>" % (x if len(x) <= 120 else x[:117] + "...")
 
     __str__ = __repr__
 
@@ -569,7 +571,7 @@ class SymCtx(BaseCtx):
         if self.pos < len(self.prefix):
             d = self.prefix[self.pos]
             if d.kind != "b" or d.key != term.get_id():
-                raise HarnessError("replay diverged at branch %s (recorded %r)" % (term, d))
+                raise HarnessError("replay diverged at branch %s (recorded %r)" % (term.sexpr()[:200], d))
             self.pos += 1
             self.trail.append(d)
             return d.value
